@@ -88,6 +88,8 @@ def gen_may(rng, kn):
     # script: conditions (deterministic or per invocation), raises, re-entrant commands
     cond_cbs = set(c for _s, _e, _i, t in d.all_trans() for c, _tg in t['conds'])
     budget = [kn.cmd_budget]
+    root_cbs = set(c for _e, ts in d.events for t in ts
+                   for c in list(t['prepare']) + [x for x, _tg in t['conds']] + list(t['before']) + list(t['after']))
     if kn.deterministic:
         d.script = {}
         for c in sorted(cond_cbs):
@@ -109,10 +111,14 @@ def gen_may(rng, kn):
                 out = ('raise', 3, 8)
             if budget[0] > 0 and slot != SLOT['finalize_event'] and rng.random() < kn.p_cmd:
                 kind = rng.choice((MAY, MAY, TRIGGER))
-                if slot in (SLOT['on_enter'], SLOT['on_exit']):
-                    # while an on_enter / on_exit callback runs, NestedState._scope changes the `name` of that state
-                    # object; a re-entrant TRIGGER that re-enters it builds its tree from `state.name` and fails inside
-                    # the engine (not modelled, nothing to do with may_): such callbacks only issue may_ calls
+                if c not in root_cbs:
+                    # re-entrant TRIGGER commands only from callbacks that run while the machine is in its own scope
+                    # (prepare / conditions / before / after of transitions declared on the machine).  Elsewhere the
+                    # engine is not re-entrant for triggers, for reasons that have nothing to do with may_ and are not
+                    # modelled: while an on_enter / on_exit callback runs, NestedState._scope changes the `name` of that
+                    # state object (a re-entrant trigger that re-enters it builds its tree from `state.name`), and
+                    # `_trigger_event` calls `_check_event_result` outside its `with self():` block, i.e. in the scope of
+                    # the state whose local transition is being evaluated.  may_ calls are issued from everywhere.
                     kind = MAY
                 ev = rng.choice(known or [0]) if rng.random() > 0.05 else unknown
                 cmds.append((kind, 0, ev))
